@@ -1,6 +1,12 @@
 package gen
 
-import "hash/fnv"
+import (
+	"bytes"
+	"hash/fnv"
+	"testing/iotest"
+
+	"github.com/tdewolff/parse/v2"
+)
 
 // Twin is a second, independent instance of a lexer or parser that a check advances by one call between every call on
 // the instance under test and the moment the check reads that call's results (token bytes, Text, AttrVal, Values):
@@ -62,5 +68,35 @@ var extendSink []byte
 func Extend(b []byte) {
 	if b != nil {
 		extendSink = append(b, 0xAA, ';', '\n', '<', '"')
+	}
+}
+
+// Supply hands src to the library in one of the ways a caller can (chosen by a hash of src, so reproducibly): bytes lexed
+// in place with and without spare capacity (Embedded), a string, a reader that returns its last bytes together with io.EOF,
+// a reader that returns one byte per call, a bytes.Buffer (which offers its bytes through Bytes()). check reports, after
+// the run, whether the caller's bytes are what they were (restored: Restore has been called).
+func Supply(src []byte, tail string) (input *parse.Input, how string, check func(restored bool) (bool, string)) {
+	h := fnv.New32a()
+	h.Write(src)
+	h.Write([]byte{1})
+	cp := append([]byte(nil), src...)
+	none := func(bool) (bool, string) { return true, "" }
+	switch h.Sum32() % 8 {
+	case 0:
+		return parse.NewInputString(string(src)), "string", none
+	case 1:
+		return parse.NewInput(iotest.DataErrReader(bytes.NewReader(cp))), "reader(data+EOF)", none
+	case 2:
+		return parse.NewInput(iotest.OneByteReader(bytes.NewReader(cp))), "reader(one byte)", none
+	case 3:
+		return parse.NewInput(bytes.NewBuffer(cp)), "bytes.Buffer", none
+	}
+	in, whole := Embedded(src, tail)
+	return parse.NewInputBytes(in), "bytes", func(restored bool) (bool, string) {
+		ok, rest := CheckEmbedded(in, whole, tail, restored)
+		if !bytes.Equal(in, src) {
+			return false, string(in) + "|" + rest
+		}
+		return ok, rest
 	}
 }
